@@ -260,5 +260,6 @@ func (c *Coder) Decode(data []byte, m *message.Message) (int, error) {
 	if math.CastTo[uint32](len(data)) < header.MessageLength {
 		return -1, message.ErrShortRead
 	}
-	return c.DecodeWithHeader(data[header.Length:], header, m)
+	// only the declared frame belongs to the message, whatever follows it in the buffer does not
+	return c.DecodeWithHeader(data[header.Length:header.MessageLength], header, m)
 }
